@@ -50,7 +50,7 @@ def run(ctx):
                         x["bytes"], vf.canon(s), "; ".join(x["why"]), x["raw"], x["exec"]), x)
     fuzz = None
     if not ctx.quick():
-        fr = ctx.gotest("socks5", HF, "^TestZZVReqFuzz$", env={"ZZV_N": 150000}, timeout=1500)
+        fr = ctx.gotest("socks5", HF, "^TestZZVReqFuzz$", env={"ZZV_N": 500000}, timeout=1500)
         fuzz = (fr.of("summary") or [None])[0]
         if not fuzz:
             raise vf.Infra("fuzz harness produced no summary")
